@@ -1,6 +1,7 @@
 package main
 
 import (
+	"go/constant"
 	"fmt"
 	"strings"
 	"go/ast"
@@ -745,6 +746,56 @@ func assignedVars(info *types.Info, nodes ...ast.Node) map[types.Object]bool {
 	return out
 }
 
+// zeroingIdiom recognises `for i := range s { s[i] = 0 }` (s a side-effect-free slice expression,
+// the idiom the compiler itself turns into a memclr) when the contract gives the loop no invariant,
+// and executes it as clear(s): the summary is exact, so no invariant is needed.
+func (u *Unit) zeroingIdiom(st *State, rng *ast.RangeStmt) bool {
+	key, ok := rng.Key.(*ast.Ident)
+	if !ok || rng.Value != nil || rng.Tok != token.DEFINE || len(rng.Body.List) != 1 {
+		return false
+	}
+	pure := func(e ast.Expr) bool {
+		ok := true
+		ast.Inspect(e, func(n ast.Node) bool {
+			switch n.(type) {
+			case nil, *ast.Ident, *ast.SelectorExpr, *ast.ParenExpr:
+			default:
+				ok = false
+			}
+			return ok
+		})
+		return ok
+	}
+	as, ok := rng.Body.List[0].(*ast.AssignStmt)
+	if !ok || as.Tok != token.ASSIGN || len(as.Lhs) != 1 || len(as.Rhs) != 1 || !pure(rng.X) {
+		return false
+	}
+	ix, ok := as.Lhs[0].(*ast.IndexExpr)
+	if !ok || types.ExprString(ix.X) != types.ExprString(rng.X) {
+		return false
+	}
+	if id, ok := ix.Index.(*ast.Ident); !ok || u.prog.Info.ObjectOf(id) != u.prog.Info.ObjectOf(key) {
+		return false
+	}
+	tv, ok := u.prog.Info.Types[as.Rhs[0]]
+	if !ok || tv.Value == nil || constant.Sign(tv.Value) != 0 {
+		return false
+	}
+	x := u.eval(st, rng.X)
+	if x.K != KSlice {
+		return false
+	}
+	h := u.heap(st, x.Elem)
+	nh := u.ctx.Fresh(u.symName("H:"+elemKey(x.Elem)), h.Sort)
+	q := boundVar("q?" + fmt.Sprint(u.nextBound()))
+	zero := u.zeroOf(x.Elem, true).Term
+	st.Assume(Forall([]*Term{q}, Ite(And(Le(x.Ptr, q), Lt(q, Add(x.Ptr, x.Len))),
+		Eq(Select(nh, q), zero), Eq(Select(nh, q), Select(h, q)))))
+	u.writeEvent(st, "H:"+elemKey(x.Elem))
+	u.setComp(st, "H:"+elemKey(x.Elem), nh)
+	return true
+}
+
 func (u *Unit) loopEnv(st *State, ord int) *SpecEnv {
 	env := u.fnEnv(st)
 	env.kord = ord
@@ -772,6 +823,9 @@ func (u *Unit) execLoop(st *State, init ast.Stmt, cond ast.Expr, post ast.Stmt, 
 	}
 	lc := u.ct.Loops[ord]
 	info := u.prog.Info
+	if lc == nil && rng != nil && u.zeroingIdiom(st, rng) {
+		return []*State{st}
+	}
 	if init != nil {
 		sts := u.execStmt(st, init)
 		if len(sts) != 1 {
